@@ -38,12 +38,21 @@ CHECKS = {
  "C12": ("exploration", "runtime monitor: subtree listings for every entry and non-existent paths vs component-wise filter of the full listing; subtree restores vs full restore",
          "Generated trees with multi-byte names and siblings that extend one another; the real subtree listing is compared for every possible S with the component-wise filter of the full listing, and restore(only_subtree=S) for every directory with the same subtree of a full restore (bytes and metadata), nothing else created.",
          "Trusted: harness walker; the full listing/restore as reference.", "3 C12"),
+ "C13": ("exploration", "runtime monitor: independent format-0.6 reader checks every documented invariant after every archive-changing step of generated histories",
+         "After every backup, interrupted backup, delete and gc of generated histories (options chosen to produce every layout, plus a 10 051-hunk band) an independent reader built from doc/format.md re-derives every invariant in the statement from the raw files.",
+         "Trusted: snap, serde_json, blake2-rfc; the reader follows the code where the document and the code disagree on a key name (len vs length).", "3 C13"),
+ "C14": ("fault_enumeration", "runtime monitor: block-write events from the interceptor log (with pre-states) over histories; every crash point of an interrupted run followed by a resumed run",
+         "Write events under d/ are observed at the storage boundary: zero for an unchanged tree with identical decoded addresses, never for an existing non-empty block in any history, and for EVERY crash point of the interrupted run the resumed run writes none of the blocks left behind and reuses every recorded entry.",
+         "Trusted: interceptor sees every write attempt; E2 reader.", "3 C14"),
  "C15": ("exploration", "runtime monitor: stored / listed / restored path sets under exclusions vs an independent glob oracle",
          "Generated trees x pattern sets (anchored, unanchored, wildcards, classes, '**', directories with children, non-ASCII): the three code paths (walk pruning at backup, per-entry filter at list and at restore) are observed and each compared with the rule 'omitted iff it or an ancestor matches' evaluated by globs built from the raw patterns.",
          "Trusted: globset for what one glob matches; E2 reader for the stored entries.", "3 C15"),
  "C16": ("exploration", "runtime monitor: lstat+content+ctime snapshots of the area around the destination before/after every restore, incl. stitched versions with entries below a symlink",
          "Source trees full of symlinks aimed at sentinel files and directories beside the destination (relative, absolute, '..', '/') are backed up and restored under several selections and destination states while a recursive snapshot including ctime watches everything outside the destination; non-empty destinations must be refused untouched; versions stitched from backups killed after a directory became a symlink are restored too.",
          "Trusted: ctime as witness of metadata writes through links; hostile pre-existing destination content is out of scope.", "3 C16"),
+ "C17": ("exploration", "runtime monitor: lock-step replay of histories into replica archives on differently scheduled runtimes, byte comparison after every step",
+         "Each generated history is executed from the same on-disk source states into a reference archive (current-thread runtime) and into replicas on 2- and 8-worker runtimes with random yields and sleeps before every storage operation; after every step the full directory trees must be byte-identical modulo head/tail timestamps.",
+         "Scheduling diversity comes from runtime flavour, worker count and injected jitter; no separate-process replay.", "3 C17"),
  "C18": ("exploration", "runtime monitor: diff stream and backup change callback vs classification computed from two lstat snapshots",
          "Generated trees and mutation sets; diff(version, tree) with and without include_unchanged must equal, entry for entry and in order, the classification computed independently from the harness's snapshots, and the next backup's change callback must name the same added/changed/deleted files.",
          "Trusted: harness walker; named uid/gid mapping is one-to-one.", "3 C18"),
